@@ -37,14 +37,14 @@ def run(tier, vd):
     res2 = validate_traces("TcpTrace", pf, parallel=8, timeout=3000)
     vd.add_validation(res2)
     r2 = dict(res2)
-    r2["viol"] = [v for v in res2["viol"] if v["rule"] in ("Q1", "Q2")]
+    r2["viol"] = [v for v in res2["viol"] if v["rule"] in ("Q1", "Q2", "PANIC")]
     report_viols(vd, "C13", r2, {"world": "tcp_pair", "seed": sd, "flags": ["--probe"]}, lambda v: {"rule": v["rule"], "world": "tcp_pair"}, lambda v: "tcp_pair %s %s" % (v["rule"], v["p"]))
     # 3. neighbor discovery back-off and datagram sockets (idle polls)
     nfz = netcommon.neigh_traces("quick", sd, "c13")
     res3 = validate_traces("NeighTrace", nfz, parallel=8)
     vd.add_validation(res3)
     r3 = dict(res3)
-    r3["viol"] = [v for v in res3["viol"] if v["rule"] == "Q2"]
+    r3["viol"] = [v for v in res3["viol"] if v["rule"] in ("Q2", "PANIC")]
     report_viols(vd, "C13", r3, {"world": "neigh", "seed": sd}, lambda v: {"rule": v["rule"], "world": "neigh"}, lambda v: "neigh %s %s" % (v["rule"], v["p"]))
 
     # 4. DHCP client against a talking (hostile) server: idle polls around lease expiry and retry exhaustion
@@ -53,7 +53,7 @@ def run(tier, vd):
     res4 = validate_traces("DhcpTrace", df, parallel=8)
     vd.add_validation(res4)
     r4 = dict(res4)
-    r4["viol"] = [v for v in res4["viol"] if v["rule"] == "Q2"]
+    r4["viol"] = [v for v in res4["viol"] if v["rule"] in ("Q2", "PANIC")]
     report_viols(vd, "C13", r4, {"world": "dhcp", "seed": sd}, lambda v: {"rule": v["rule"], "world": "dhcp", "why": v["p"][-1] if v["p"] else None}, lambda v: "dhcp %s %s" % (v["rule"], v["p"]))
 
     def mut(e):
